@@ -948,3 +948,5 @@ def _run(world: World, plan):
                                              sorted((plan.get('blocked') or {}).items())])
 
 INFO['rule'] += " Round-5 additions: local steps track / untrack (the server's AddUser answer is folded), step relogin with the application keeping the User objects it was given (hold_users); after a session reset a name about which nothing was announced has no statistics."
+
+INFO['rule'] += ' Round-6 additions: empty ticker and chat texts.'
